@@ -775,11 +775,12 @@ def decodeMessagesCtx : Nat → Nat → St → LoopOut
       | r => loopFail s r
     else (s, [], .ok ())
 
-/-- `for d.fileId == nil { decodeMessage }` of `PeekFileId` -/
+/-- the loop of `PeekFileId`: `for d.fileId == nil { if d.cur >= d.fileHeader.DataSize { return invalid FileId }; decodeMessage }`
+— it stops at the first file_id message, or at the end of the sequence's messages when there is none -/
 def peekLoop : Nat → St → LoopOut
-  | 0, s => (s, [], if s.q.fileId.isNone then .hang else .ok ())
+  | 0, s => (s, [], if s.q.fileId.isNone ∧ s.q.cur < s.q.hdr.dataSize then .hang else .ok ())
   | fuel + 1, s =>
-    if s.q.fileId.isNone then
+    if s.q.fileId.isNone ∧ s.q.cur < s.q.hdr.dataSize then
       match decodeMessage s with
       | .ok (s', ev) => let (sf, evs, r) := peekLoop fuel s'; (sf, ev.toList ++ evs, r)
       | r => loopFail s r
@@ -904,6 +905,8 @@ def stepPeekHeader (s : St) : StepOut :=
     | .ok s1 => (s1, .header s1.q.hdr, [])
     | r => failHeader s r
 
+/-- `PeekFileId`; a sequence without file_id message gives `mesgdef.NewFileId(nil)` (every field invalid) once all its
+messages are decoded -/
 def stepPeekFileId (s : St) : StepOut :=
   match s.q.err with
   | some e => (s, .err e, [])
@@ -911,7 +914,7 @@ def stepPeekFileId (s : St) : StepOut :=
     match headerOnce s with
     | .ok s1 =>
       match peekLoop (fuelOf s1) s1 with
-      | (s2, evs, .ok ()) => (s2, (match s2.q.fileId with | some f => .fileId f | none => .panic), evs)
+      | (s2, evs, .ok ()) => (s2, .fileId (match s2.q.fileId with | some f => f | none => mkFileId []), evs)
       | (s2, evs, r) => let (s', o) := fail s2 r; (s', o, evs)
     | r => failHeader s r
 
